@@ -101,6 +101,17 @@ def setDownloadMode (mode : Mode) (canDownload : Bool) : DlCfg :=
   | .packages => {}
   | .no => {}
 
+/-- the argument of `--download` (`packages=<regex>` is reduced to its prefix) -/
+def Mode.ofString : String → Option Mode
+  | "no" => some .no
+  | "yes" => some .yes
+  | "deps" => some .deps
+  | "forced" => some .forced
+  | "forced-deps" => some .forcedDeps
+  | "forced-fallback" => some .forcedFallback
+  | "packages" => some .packages
+  | _ => none
+
 /-! ## project, state, archive -/
 
 structure PInfo where
